@@ -37,7 +37,10 @@ def engine_p(prop):
     from pyvc import run
 
     run.load_contracts()
-    quals = [q for q, c in C.REGISTRY.items() if prop in c.properties and not c.trusted]
+    from driver.props import PROPS
+
+    props = [prop] + list(PROPS.get(prop, {}).get("p_also", []))
+    quals = [q for q, c in C.REGISTRY.items() if any(p in c.properties for p in props) and not c.trusted]
     if not quals:
         return [], []
     jobs = []
